@@ -4,6 +4,7 @@ package c09
 import (
 	"encoding/json"
 	"fmt"
+	"github.com/elnosh/gonuts/mint"
 	"os"
 	"strings"
 	"testing"
@@ -172,6 +173,16 @@ func (s *state) invariant(m *hist.Machine, op string) {
 func propLifecycle(t *rapid.T) {
 	cfg := hist.GenConfig(t, []uint{0, 1, 100, 999, 1000, 2500}, false)
 	cfg.WithServer = true
+	// one history in three runs on a mint with configured limits: what a mint publishes about its keysets must not
+	// depend on the rest of its configuration
+	if rapid.IntRange(0, 2).Draw(t, "with_limits") == 0 {
+		cfg.Limits = mint.MintLimits{
+			MaxBalance:      rapid.SampledFrom([]uint64{0, 500, 5000, 100000}).Draw(t, "max_balance"),
+			MintingSettings: mint.MintMethodSettings{MaxAmount: rapid.SampledFrom([]uint64{0, 300, 70000}).Draw(t, "mint_max")},
+			MeltingSettings: mint.MeltMethodSettings{MaxAmount: rapid.SampledFrom([]uint64{0, 300}).Draw(t, "melt_max")},
+		}
+		rec.Class(fmt.Sprintf("limits_configured|max_balance_set=%v", cfg.Limits.MaxBalance > 0))
+	}
 	st := &state{verified: map[string]int{}, firstFee: map[string]uint{}}
 	m := hist.Run(t, cfg, hist.Options{
 		Weights:   hist.Weights(map[string]int{"rotate": 5, "restart": 4, "swap": 8, "swap_adv": 4, "old_keyset_fee": 5, "melt": 4, "melt_adv": 2, "meltquote": 3, "checkstate": 0, "deliver": 0, "pollmint": 0, "mint": 1, "mintquote": 1}),
